@@ -101,6 +101,26 @@ class Context:
         self.units.add('%s:%s' % (flavour if area == 'src' else area, file))
         return raw
 
+    def enumerators(self, file, flavour='vanilla', area='src', **kw):
+        """name -> value of every C enumerator the unit's debug info carries (resolved by name, never frozen)"""
+        key = ('enum', area, flavour, file)
+        if key not in self._mods:
+            raw = self.raw(file, flavour, area, **kw)
+            out = {}
+            with open(raw) as fp:
+                for line in fp:
+                    if '!DIEnumerator(' in line:
+                        mm = re.search(r'name: "([^"]+)", value: (-?\d+)', line)
+                        if mm:
+                            out[mm.group(1)] = int(mm.group(2))
+            self._mods[key] = out
+        return self._mods[key]
+
+    def need_enum(self, enums, name):
+        if name not in enums:
+            raise AnalysisBroken('enumerator %s not found (anchor vanished)' % name)
+        return enums[name]
+
     def prefetch(self, items):
         """compile several (file, flavour, area) units in parallel"""
         with ThreadPoolExecutor(max_workers=16) as ex:
